@@ -435,7 +435,110 @@ def gen_fields(repo):
     return "\n".join(L)
 
 
-FRAGMENTS = [("Dispatch", gen_dispatch), ("Stubs", gen_stubs), ("Fields", gen_fields)]
+# --------------------------------------------------------------------------- synchronisation shape of the pool
+SYNC_PAT = re.compile(
+    r"(?P<ulock>std::unique_lock<std::mutex>\s+\w+\s*\(\s*(?P<ulm>\w+)\s*\))"
+    r"|(?P<guard>std::lock_guard(?:<std::mutex>)?\s+\w+\s*\(\s*(?P<gm>\w+)\s*\))"
+    r"|(?P<unlock>\b\w+\.unlock\s*\(\s*\))"
+    r"|(?P<wait>\b(?P<wcv>\w+)\.wait\s*\(\s*\w+\s*,\s*\[[^\]]*\]\s*\(\s*\)\s*\{\s*return\s+(?P<wpred>[^;]*);\s*\}\s*\))"
+    r"|(?P<wait0>\b\w+\.wait\s*\(\s*\w+\s*\))"
+    r"|(?P<nall>\b\w+\.notify_all\s*\(\s*\))"
+    r"|(?P<none_>\b\w+\.notify_one\s*\(\s*\))"
+    r"|(?P<push>\bqueue\.add_task\s*\()|(?P<qpush>\bq\.push_back\s*\()"
+    r"|(?P<pop>\bqueue\.pop\s*\(\s*\))|(?P<qpop>\bq\.pop_front\s*\(\s*\))|(?P<qfront>\bq\.front\s*\(\s*\))"
+    r"|(?P<qempty>\bqueue\.empty\s*\(\s*\)|\bq\.empty\s*\(\s*\))"
+    r"|(?P<stopped>\bstopped\s*\(\s*\))"
+    r"|(?P<setstop>\b\w+->stop\s*\(\s*\)|\bset_stopped\s*\(\s*\w+\s*\))"
+    r"|(?P<rawstop>\b_stopped\b)"
+    r"|(?P<run>\btask\s*\(\s*\))"
+    r"|(?P<join>\b\w+->join\s*\(\s*\))"
+    r"|(?P<kw>\bwhile\b|\bif\b|\bfor\b|\bbreak\b|\bcontinue\b|\breturn\b)"
+    r"|(?P<ob>\{)|(?P<cb>\})|(?P<neg>!)|(?P<oror>\|\|)|(?P<andand>&&)")
+
+
+def sync_tokens(body):
+    body = re.sub(r"LIBCSD_VERIF_POINT\([^;]*\);", "", body)
+    out = []
+    for m in SYNC_PAT.finditer(body):
+        k = m.lastgroup
+        g = m.groupdict()
+        if g["ulock"]:
+            out.append("lock " + g["ulm"])
+        elif g["guard"]:
+            out.append("guard " + g["gm"])
+        elif g["unlock"]:
+            out.append("unlock")
+        elif g["wait"]:
+            pred = " ".join(sync_tokens(g["wpred"]))
+            out.append("wait[" + pred + "]")
+        elif g["wait0"]:
+            out.append("wait-nopred")
+        elif g["nall"]:
+            out.append("notify_all")
+        elif g["none_"]:
+            out.append("notify_one")
+        elif g["push"]:
+            out.append("q.add")
+        elif g["qpush"]:
+            out.append("q.push_back")
+        elif g["pop"]:
+            out.append("q.pop")
+        elif g["qpop"]:
+            out.append("q.pop_front")
+        elif g["qfront"]:
+            out.append("q.front")
+        elif g["qempty"]:
+            out.append("q.empty")
+        elif g["stopped"]:
+            out.append("stopped?")
+        elif g["setstop"]:
+            out.append("setstop")
+        elif g["rawstop"]:
+            out.append("_stopped")
+        elif g["run"]:
+            out.append("run")
+        elif g["join"]:
+            out.append("join")
+        elif g["kw"]:
+            out.append(g["kw"])
+        elif g["ob"]:
+            out.append("{")
+        elif g["cb"]:
+            out.append("}")
+        elif g["neg"]:
+            out.append("!")
+        elif g["oror"]:
+            out.append("||")
+        elif g["andand"]:
+            out.append("&&")
+    return out
+
+
+POOL_FUNCS = [("WorkerQueue::add_task", "add_task", 0), ("WorkerQueue::empty", "empty", 0), ("WorkerQueue::pop", "pop", 0),
+              ("Worker::stopped", "stopped", 0), ("Worker::set_stopped", "set_stopped", 0), ("Worker::run", "run", 0),
+              ("WorkerPool::add_task", "add_task", 1), ("WorkerPool::wait_workers", "wait_workers", 0),
+              ("WorkerPool::stop_all_workers", "stop_all_workers", 0)]
+
+
+def gen_poolops(repo):
+    src = strip_comments(read(repo, "parallel/Worker.hpp"))
+    L = ["-- generated by tools/extract_frag.py from parallel/Worker.hpp: the synchronisation skeleton of every pool method",
+         "namespace CSD.Generated", "", "def poolOps : List (String × List String) := ["]
+    rows = []
+    for label, name, nth in POOL_FUNCS:
+        body, _ = func_body(src, name, nth=nth)
+        rows.append("  (%s, %s)" % (lean_str(label), lean_list(lean_str(t) for t in sync_tokens(body))))
+    L.append(",\n".join(rows) + "]")
+    # every access to the raw members happens inside the accessor that takes the leaf mutex
+    src = re.sub(r"LIBCSD_VERIF_POINT\([^;]*\);", "", src)
+    raw_q = len(re.findall(r"\bq\.", src))
+    raw_s = len(re.findall(r"\b_stopped\b", src))
+    L += ["", "/-- occurrences of the raw members `q.` and `_stopped` in the whole header (all inside the guarded accessors / the declaration / the constructor) -/",
+          "def rawQueueUses : Nat := %d" % raw_q, "def rawStoppedUses : Nat := %d" % raw_s, "", "end CSD.Generated", ""]
+    return "\n".join(L)
+
+
+FRAGMENTS = [("Dispatch", gen_dispatch), ("Stubs", gen_stubs), ("Fields", gen_fields), ("PoolOps", gen_poolops)]
 
 if __name__ == "__main__":
     import sys
